@@ -297,7 +297,12 @@ ContainmentMonitors(h, f, b, T, loud, nerr, opened, how, dk) ==
         \* (its directories must still be listed too: a file whose directory entry sat in the damaged
         \* hunk cannot be created, which is reported)
         ListedDirs(p) == \A i \in 1..(Len(p) - 1) : \E d \in SeqRange(fl) : d.p = SubSeq(p, 1, i) /\ d.k = "Dir"
-        wrong == {e.p : e \in {x \in untouched : ListedDirs(x.p) /\ AncestorsAreDirs(T, x.p) /\ (x.p \notin DOMAIN T \/ T[x.p] # HT[x.p])}}
+        \* (a flipped bit can turn the path of an entry of the damaged hunk into the path of another
+        \* entry, or of one of its directories: the listing then claims two things for one path, restore
+        \* reports the clash, and neither claim can be preferred)
+        Claims(q) == Cardinality({i \in 1..Len(fl) : fl[i].p = q})
+        Unambiguous(p) == \A i \in 1..Len(p) : Claims(SubSeq(p, 1, i)) = 1
+        wrong == {e.p : e \in {x \in untouched : ListedDirs(x.p) /\ Unambiguous(x.p) /\ AncestorsAreDirs(T, x.p) /\ (x.p \notin DOMAIN T \/ T[x.p] # HT[x.p])}}
         \* files of the healthy version that did not come back exactly
         lostfiles == {e.p : e \in {x \in SeqRange(hl) : x.k = "File" /\ Affected(x)
                                           /\ (x.p \notin DOMAIN T \/ T[x.p] # HT[x.p])}}
@@ -421,8 +426,9 @@ WalkMonitors(r) ==
     IN
        If(r.panic, {<<"Panic", r.pmsg>>})
   \cup If(r.res = "ok" /\ ~StrictlyIncreasing(r.entries), {<<"WalkOrder", "not strictly increasing">>})
-  \cup If(r.res = "ok" /\ SeqRange(ps) # {p \in DOMAIN g.src : ~Excluded(p, M)},
-          {<<"WalkSet", <<SeqRange(ps) \ DOMAIN g.src, {p \in DOMAIN g.src : ~Excluded(p, M)} \ SeqRange(ps)>> >>})
+  \* (a name that is not valid UTF-8 cannot be an archive path; the walk passes over it)
+  \cup If(r.res = "ok" /\ SeqRange(ps) # {p \in DOMAIN g.src : ~Excluded(p, M)} \ SeqRange(r.undecodable),
+          {<<"WalkSet", <<SeqRange(ps) \ DOMAIN g.src, ({p \in DOMAIN g.src : ~Excluded(p, M)} \ SeqRange(r.undecodable)) \ SeqRange(ps)>> >>})
 
 \* C18: the diff stream against the set-theoretic difference of the version and the tree
 DiffMonitors(r) ==
